@@ -28,7 +28,7 @@ func init() {
 			if tier == "quick" {
 				return 3200
 			}
-			return 32000
+			return 16000
 		},
 		Run:      runC19,
 		Required: []string{"series.unsorted", "series.empty", "series.single", "series.with_ties", "series.large_offset", "experiments", "experiments.partly_solved", "experiments.no_trials", "trials.unsolved", "trials.empty"},
